@@ -135,12 +135,13 @@ PROPERTIES = {
         'does_not_decide': 'effects of user callbacks (Hash/Eq/Clone/Debug); HashMap/DashMap internals',
     },
     'C14': {
-        'rules': [fx.rule_auth_sketch_record, fx.rule_pair_readop_once, fx.rule_const_masks],
-        'explanation': 'Decides only the clause "only get calls are recorded, each exactly once" plus the constant relations the '
-                       'estimator bounds rest on: who can reach the sketch increment role, where ReadOps are constructed and '
-                       'consumed, one record per path through get, RESET/ONE/nibble masks and the 128 clamp.',
+        'rules': [fx.rule_auth_sketch_record, fx.rule_pair_readop_once, fx.rule_const_masks, fx.rule_sketch_structure],
+        'explanation': 'Decides the clause "only get calls are recorded, each exactly once" plus structural necessary conditions of the '
+                       'numeric clauses: who can reach the sketch increment role, where ReadOps are constructed and consumed, one record per '
+                       'path through get, RESET/ONE/nibble masks and the 128 clamp, aging visits the whole table and halves every slot, '
+                       'the table is reallocated (zeroed) only on growth and only before the estimator is enabled.',
         'decides': 'only get (hit or miss) feeds the popularity sketch, exactly once per call; mask constants are the ones halving / '
-                   'saturation need',
+                   'saturation need; aging halves every slot; counts are wiped only by growth before enabling',
         'does_not_decide': 'the count-min numerics: lower bound c, exact halving for all table states, collision behaviour (run-time values)',
     },
     'C09': {
